@@ -133,6 +133,28 @@ Theorem C08_quaternion_identity :
 Proof. exact quat_identity. Qed.
 Print Assumptions C08_quaternion_identity.
 
+(* 7. matrix -> quaternion: every branch of rotation_matrix_to_quaternion returns +-(w,x,y,z) for the unit
+      quaternion of its input (numerators 4 p (w,x,y,z), square-root argument 4 p^2 with p the branch's pivot
+      component; eps = 0) -- which branch is taken and the eps-regularised square root are numeric *)
+Theorem C08_matrix_to_quaternion_branches :
+  forall (K : fld), is_field K ->
+  forall (w x y z : K), w * w + x * x + y * y + z * z = 1 ->
+  let M := unit_quat_matrix K w x y z in
+  gen_m2q_num_0 0 M = m2q_spec K w w x y z /\ gen_m2q_arg_0 0 M = (1+1)*(1+1) * w * w /\
+  gen_m2q_num_1 0 M = m2q_spec K x w x y z /\ gen_m2q_arg_1 0 M = (1+1)*(1+1) * x * x /\
+  gen_m2q_num_2 0 M = m2q_spec K y w x y z /\ gen_m2q_arg_2 0 M = (1+1)*(1+1) * y * y /\
+  gen_m2q_num_3 0 M = m2q_spec K z w x y z /\ gen_m2q_arg_3 0 M = (1+1)*(1+1) * z * z /\
+  (gen_m2q_pivot_0, gen_m2q_pivot_1, gen_m2q_pivot_2, gen_m2q_pivot_3) = (0, 1, 2, 3)%nat.
+Proof. exact m2q_branches_sound. Qed.
+Print Assumptions C08_matrix_to_quaternion_branches.
+
+Theorem C08_unit_quaternion_matrix_is_generated_one :
+  forall (K : fld), is_field K ->
+  forall (n w x y z : K), n <> 0 ->
+  gen_quat_matrix n w x y z = unit_quat_matrix K (w / n) (x / n) (y / n) (z / n).
+Proof. exact quat_matrix_unit. Qed.
+Print Assumptions C08_unit_quaternion_matrix_is_generated_one.
+
 (* non-vacuity: the hypotheses are satisfiable by non-trivial values *)
 Example C08_nonvacuous :
   let c : QcF := q 3 5 in let s : QcF := q 4 5 in
